@@ -171,6 +171,14 @@ fn canon_area(t: &str) -> bool {
         None => false,
     }
 }
+/// mirror of `canonAddrB` (Umya/Model/CoordCanonMore.lean): a canonical qualifier and any of the four range shapes,
+/// or a bare range of one of the four shapes
+fn canon_total(t: &str) -> bool {
+    match t.rsplit_once('!') {
+        Some((q, a)) => canon_qual(q) && canon_range_shape(a) != 0,
+        None => canon_range_shape(t) != 0,
+    }
+}
 /// the model's `stripSheetQuote`
 fn strip_quote(q: &str) -> &str {
     match q.strip_prefix('\'') {
@@ -316,6 +324,41 @@ fn exec_pp(out: &mut Out, line: &str, a: &[&str]) -> (String, bool) {
                 Err(_) => {
                     if canon {
                         out.oracle_fail(Fail::new("area-parse-print").with("text", &t).with("printed", "panic").with("op", line));
+                    }
+                    (format!("{} panic", bit(canon)), false)
+                }
+            }
+        }
+        "total" => {
+            // C17_address_canon_total: qualified and unqualified areas of all four shapes
+            let canon = canon_total(&t);
+            canon_count(out, "total", canon);
+            if canon {
+                out.count(&format!("pp.total.{}.{}", if t.contains('!') { "qualified" } else { "unqualified" }, ["outside", "cell", "cell-cell", "col-col", "row-row"][canon_range_shape(t.rsplit_once('!').map(|x| x.1).unwrap_or(&t)) as usize]));
+            }
+            let pr = |s: &str| {
+                let s = s.to_string();
+                guard(move || {
+                    let mut ad = Address::default();
+                    ad.set_address(s.replace("''", "'"));
+                    (ad.verif_get_address_ptn2(), ad.get_sheet_name().to_string(), dump_range(ad.get_range()))
+                })
+            };
+            match pr(&t) {
+                Ok((v, sheet, corners)) => {
+                    if canon {
+                        let tail = t.rsplit_once('!').map(|x| x.1).unwrap_or(&t);
+                        let unq_ok = t.contains('!') || (v == t && sheet.is_empty());
+                        match pr(&v) {
+                            Ok((v2, sheet2, corners2)) if v2 == v && sheet2 == sheet && corners2 == corners && v.ends_with(tail) && unq_ok => out.oracle_ok(),
+                            _ => out.oracle_fail(Fail::new("address-total-parse-print").with("text", &t).with("printed", &v).with("op", line)),
+                        }
+                    }
+                    (format!("{} {}", bit(canon), hex(&v)), true)
+                }
+                Err(_) => {
+                    if canon {
+                        out.oracle_fail(Fail::new("address-total-parse-print").with("text", &t).with("printed", "panic").with("op", line));
                     }
                     (format!("{} panic", bit(canon)), false)
                 }
@@ -806,6 +849,13 @@ pub fn gen(tier: Tier, seed: u64) -> Vec<String> {
         let t = format!("{}!{}", spell(&mut rng, &name), rg);
         v.push(format!("c17 pp addr {}", hex(&t)));
         v.push(format!("c17 pp area {}", hex(&t)));
+        {
+            // all four range shapes, with and without a qualifier
+            let shapes = ["A1", "$A$1", "A1:B2", "$C$3:$XFD$1048576", "A:C", "$A:$B", "1:5", "$1:$3", "XFD:XFD", "1048576:1048576", "A01", "a:c", "A1:B", ""];
+            let rg2 = if rng.chance(5, 6) { (*rng.pick(&shapes[..10])).to_string() } else { (*rng.pick(&shapes)).to_string() };
+            let t2 = if rng.chance(1, 3) { rg2 } else { format!("{}!{}", spell(&mut rng, &name), rg2) };
+            v.push(format!("c17 pp total {}", hex(&t2)));
+        }
         // a name text: 1-3 areas
         let k = rng.range(1, 3);
         let mut pieces = vec![t.clone()];
